@@ -34,6 +34,14 @@ class FunctionNode(Node):
             + self.children["content"]["function"]
         )
 
+    def is_self_safe(self) -> bool:  # pragma: no cover
+        # what is audited and imported is the function named in the content, the
+        # class of the node is only the type of that function (e.g. "ufunc")
+        return (self.trusted is True) or (self._get_function_name() in self.trusted)
+
+    def format(self) -> str:  # pragma: no cover
+        return self._get_function_name()
+
     def get_unsafe_set(self) -> set[str]:  # pragma: no cover
         if (self.trusted is True) or (self._get_function_name() in self.trusted):
             return set()
